@@ -334,7 +334,7 @@ var intDomain = []int64{0, 1, 2, 5, 7, 10, -1}
 var strDomain = []string{"x", "y", "ab", "0", "7", "10", "zz", "1"}
 
 func GenVal(r *hx.Rng, ty byte) Val {
-	if r.Chance(1, 7) {
+	if r.Chance(1, 4) {
 		return Null
 	}
 	if ty == 's' {
@@ -356,6 +356,7 @@ type GenOpts struct {
 	SchemaChange int  // probability (out of 10) that one side changes the schema
 	BothSides    bool // allow schema changes on both sides (outside the property's quantifier; rarely)
 	MaxKeys      int
+	Cellwise     int // probability (out of 10) of a dense same-schema cell-merge scenario (genCellwise)
 }
 
 // sideState tracks a side's columns and live keys while generating its history.
@@ -461,14 +462,123 @@ func insertCol(cols []Col, c Col, after int) []Col {
 	return out
 }
 
+// genCellwise builds a same-schema scenario aimed at the cell-wise merger: 3-5 non-key columns,
+// 4-10 NULL-heavy rows, and in key order runs of "row with a cell CONFLICT in a non-first column
+// (earlier columns non-NULL)" immediately followed by "row both sides edited in DIFFERENT cells whose
+// other cells are mostly NULL" — so state leaking from one merged row into the next (a reused tuple
+// builder, a stale buffer) shows up as a merged cell that is in none of base / ours / theirs.
+func genCellwise(r *hx.Rng, n int) *Scenario {
+	sc := &Scenario{N: n, Resolve: hx.Pick(r, []string{"none", "none", "ours", "theirs"})}
+	nc := r.Range(3, 5)
+	for i := 1; i <= nc; i++ {
+		sc.BaseCols = append(sc.BaseCols, Col{ID: i, Ty: hx.Pick(r, []byte{'i', 'i', 's'})})
+	}
+	nonNull := func(ty byte) Val {
+		if ty == 's' {
+			return StrV(hx.Pick(r, strDomain))
+		}
+		return IntV(hx.Pick(r, intDomain))
+	}
+	other := func(ty byte, not ...Val) Val {
+		for {
+			v := nonNull(ty)
+			ok := true
+			for _, x := range not {
+				if v == x {
+					ok = false
+				}
+			}
+			if ok {
+				return v
+			}
+		}
+	}
+	nb := r.Range(4, 10)
+	for k := 1; k <= nb; k++ {
+		row := make([]Val, nc)
+		key := int64(k)
+		switch role := r.Intn(10); {
+		case role < 4: // cell conflict in column c >= 1, earlier columns non-NULL
+			for i, c := range sc.BaseCols {
+				row[i] = nonNull(c.Ty)
+			}
+			c := r.Range(1, nc-1)
+			if r.Chance(1, 2) {
+				c = nc - 1
+			}
+			ty := sc.BaseCols[c].Ty
+			v1 := other(ty, row[c])
+			v2 := other(ty, row[c], v1)
+			sc.Ours = append(sc.Ours, Op{Kind: "upd", Key: key, Col: sc.BaseCols[c].ID, V: v1})
+			sc.Theirs = append(sc.Theirs, Op{Kind: "upd", Key: key, Col: sc.BaseCols[c].ID, V: v2})
+			if r.Chance(1, 3) { // and an unrelated clean edit in an earlier cell
+				sc.Ours = append(sc.Ours, Op{Kind: "upd", Key: key, Col: sc.BaseCols[0].ID, V: other(sc.BaseCols[0].Ty, row[0])})
+			}
+		case role < 8: // both sides edit different cells; the rest mostly NULL
+			for i, c := range sc.BaseCols {
+				if r.Chance(2, 3) {
+					row[i] = Null
+				} else {
+					row[i] = nonNull(c.Ty)
+				}
+			}
+			i := r.Intn(nc)
+			j := (i + 1 + r.Intn(nc-1)) % nc
+			vi, vj := other(sc.BaseCols[i].Ty, row[i]), other(sc.BaseCols[j].Ty, row[j])
+			if r.Chance(1, 4) {
+				vi = Null
+				if row[i].Null {
+					vi = nonNull(sc.BaseCols[i].Ty)
+				}
+			}
+			sc.Ours = append(sc.Ours, Op{Kind: "upd", Key: key, Col: sc.BaseCols[i].ID, V: vi})
+			sc.Theirs = append(sc.Theirs, Op{Kind: "upd", Key: key, Col: sc.BaseCols[j].ID, V: vj})
+		case role < 9: // one-sided edit or delete
+			for i, c := range sc.BaseCols {
+				row[i] = GenVal(r, c.Ty)
+			}
+			if r.Bool() {
+				sc.Theirs = append(sc.Theirs, Op{Kind: "del", Key: key})
+			} else {
+				c := sc.BaseCols[r.Intn(nc)]
+				sc.Ours = append(sc.Ours, Op{Kind: "upd", Key: key, Col: c.ID, V: GenVal(r, c.Ty)})
+			}
+		default: // untouched, NULL-heavy
+			for i := range row {
+				row[i] = Null
+			}
+		}
+		sc.BaseRows = append(sc.BaseRows, row)
+	}
+	// both sides insert the same new key with rows differing in one cell or in none
+	if r.Chance(1, 2) {
+		key := int64(nb + 1)
+		a := make([]Val, nc)
+		for i, c := range sc.BaseCols {
+			a[i] = GenVal(r, c.Ty)
+		}
+		b := append([]Val{}, a...)
+		if r.Bool() {
+			i := r.Intn(nc)
+			b[i] = other(sc.BaseCols[i].Ty, a[i])
+		}
+		sc.Ours = append(sc.Ours, Op{Kind: "ins", Key: key, Row: a})
+		sc.Theirs = append(sc.Theirs, Op{Kind: "ins", Key: key, Row: b})
+	}
+	return sc
+}
+
 func GenScenario(r *hx.Rng, n int, o GenOpts) *Scenario {
+	if o.Cellwise > 0 && r.Intn(10) < o.Cellwise {
+		return genCellwise(r, n)
+	}
 	sc := &Scenario{N: n, Resolve: hx.Pick(r, []string{"none", "ours", "theirs", "theirs"})}
-	nc := r.Range(1, 4)
+	nc := r.Range(1, 5)
 	for i := 1; i <= nc; i++ {
 		sc.BaseCols = append(sc.BaseCols, Col{ID: i, Ty: hx.Pick(r, []byte{'i', 'i', 's'})})
 	}
 	if o.MaxKeys == 0 {
-		o.MaxKeys = 6
+		o.MaxKeys = 8
 	}
 	nb := r.Range(1, o.MaxKeys)
 	for i := 0; i < nb; i++ {
